@@ -5,7 +5,7 @@
 (* Trace_Pair (byte equality of the two models).                                                  *)
 EXTENDS VpBase, Json, Integers
 CONSTANTS Alphabet, MaxLen, CommentSel
-WeightPool == {0, -1, 12345, 2147483647, (-2147483647) - 1}
+WeightPool == {0, -1, 12345, 2147483647, (-2147483647) - 1, 16777217, 123456789, -33554433}
 VARIABLES word, phase
 Init == word = <<>> /\ phase = 0
 Next == \/ phase = 0 /\ Len(word) < MaxLen /\ \E c \in Alphabet : word' = Append(word, c) /\ phase' = 0
